@@ -127,6 +127,26 @@ Theorem C10_none_on_either_read_no_header :
 Proof. exact @none_on_either_read_no_header. Qed.
 Print Assumptions C10_none_on_either_read_no_header.
 
+(* ---- what leaves the agent ---------------------------------------------------------------------- *)
+(* An authorization header leaves the agent only as the signer's own (id, secret) pair with a secret
+   compute_signature accepts -- so every pairing theorem above applies to it; with an unusable secret
+   (not hex) the proxied request goes out WITHOUT a header and the agent's own call sends NOTHING
+   (never a MAC under some other key's secret); on the proxied route the agent's header REPLACES
+   whatever the client supplied under that name. *)
+Theorem C10_only_own_usable_header_leaves :
+  forall usable r l,
+  (forall g v, route_outcome usable r l = Sent (Some (g, v)) -> hdr l = Some (g, v) /\ usable v = true) /\
+  (forall g v, hdr l = Some (g, v) -> usable v = false ->
+     route_outcome usable r l = match r with ProxiedRequest => Sent None | _ => NotSent end) /\
+  (forall (X : Type) (client : list X) h, forwarded_auth client (Some h) = [h]).
+Proof.
+  intros. split; [|split].
+  - intros g v. apply route_outcome_sent.
+  - intros g v. apply route_outcome_unusable.
+  - reflexivity.
+Qed.
+Print Assumptions C10_only_own_usable_header_leaves.
+
 (* ---- pairing at LATCH time ------------------------------------------------------------------ *)
 (* The key keeper only ever sends the actor WHOLE key documents: the document found in the key file
    selected by the guid the host reports ([LatchLocal], whatever guid that document carries), or the
